@@ -265,9 +265,10 @@ pub type Viol = Vec<(&'static str, String)>;
 
 /// all single-tree predicates, evaluated after every op of a history
 pub fn oracle_tree<const N: usize>(c: &TreeCase) -> Viol {
+    // findings made before a panic are kept: the closure writes into the outer vector
     let mut out: Viol = vec![];
     let r = catch_unwind(AssertUnwindSafe(|| {
-        let mut out: Viol = vec![];
+        let out = &mut out;
         let mut t = new_tree::<N>(c.base);
         let mut t_dep = if c.base == 16 { Some(new_tree_deprecated::<N>()) } else { None };
         let mut t_alt = new_tree_base_first::<N>(c.base);
@@ -416,11 +417,21 @@ pub fn oracle_tree<const N: usize>(c: &TreeCase) -> Viol {
                 out.push(("C01", at("root hash differs from a freshly built tree with the same content")));
                 out.push(("C02", at("root hash differs from a freshly built tree with the same content")));
                 // the user-visible consequence: two replicas with identical content keep exchanging ranges
-                let d1 = diff(tc.serialise_page_ranges().unwrap(), f.serialise_page_ranges().unwrap()).len();
-                let d2 = diff(f.serialise_page_ranges().unwrap(), tc.serialise_page_ranges().unwrap()).len();
-                if d1 + d2 > 0 {
-                    out.push(("C08", at("diff against a freshly built tree with identical content is not empty")));
-                    out.push(("C06", at("a replica with this history never reports the root hash of a replica with the same content")));
+                let dd = catch_unwind(AssertUnwindSafe(|| {
+                    diff(tc.serialise_page_ranges().unwrap(), f.serialise_page_ranges().unwrap()).len()
+                        + diff(f.serialise_page_ranges().unwrap(), tc.serialise_page_ranges().unwrap()).len()
+                }));
+                match dd {
+                    Ok(0) => {}
+                    Ok(_) => {
+                        out.push(("C08", at("diff against a freshly built tree with identical content is not empty")));
+                        out.push(("C06", at("a replica with this history never reports the root hash of a replica with the same content")));
+                    }
+                    Err(_) => {
+                        out.push(("C08", at("serialising / diffing against a freshly built tree with identical content panicked after a hash request")));
+                        out.push(("C15", at("serialise_page_ranges() panicked although the root hash had just been requested")));
+                        out.push(("C06", at("a replica with this history cannot be diffed against a replica with the same content")));
+                    }
                 }
             }
             if ranges_str(&tc) != ranges_str(&f) {
@@ -486,11 +497,9 @@ pub fn oracle_tree<const N: usize>(c: &TreeCase) -> Viol {
                 }
             }
         }
-        out
     }));
-    match r {
-        Ok(v) => out.extend(v),
-        Err(_) => out.push(("C15", "a tree operation panicked".into())),
+    if r.is_err() {
+        out.push(("C15", "a tree operation panicked".into()));
     }
     out
 }
@@ -630,8 +639,9 @@ pub fn final_content(ops: &[Op]) -> BTreeMap<u32, Vec<u8>> {
 
 /// predicates on a pair of real trees
 pub fn oracle_pair<const N: usize>(c: &PairCase) -> Viol {
+    let mut out: Viol = vec![];
     let r = catch_unwind(AssertUnwindSafe(|| {
-        let mut out: Viol = vec![];
+        let out = &mut out;
         let mut a = build_tree::<N>(c.base, &c.keys, &c.ops_a);
         let mut b = build_tree::<N>(c.base, &c.keys, &c.ops_b);
         let ha = a.root_hash().clone();
@@ -728,15 +738,18 @@ pub fn oracle_pair<const N: usize>(c: &PairCase) -> Viol {
                 out.push(("C15", "diff panicked on an owned / rebuilt representation of real trees' page ranges".into()));
             }
         }
-        out
     }));
-    r.unwrap_or_else(|_| vec![("C15", "a pair operation panicked".into())])
+    if r.is_err() {
+        out.push(("C15", "a pair operation panicked".into()));
+    }
+    out
 }
 
 /// full two-way sync loop on a pair (C05 rounds + join result), using real trees kept incrementally
 pub fn oracle_sync_rounds(c: &PairCase) -> Viol {
+    let mut out: Viol = vec![];
     let r = catch_unwind(AssertUnwindSafe(|| {
-        let mut out: Viol = vec![];
+        let out = &mut out;
         let val = |v: &Vec<u8>| u64::from_le_bytes([v[0], v[1], v[2], v[3], v[4], v[5], v[6], v[7]]);
         for merge_max in [false, true] {
             let mut reps: Vec<Replica> = vec![];
@@ -788,9 +801,11 @@ pub fn oracle_sync_rounds(c: &PairCase) -> Viol {
                 }
             }
         }
-        out
     }));
-    r.unwrap_or_else(|_| vec![("C15", "a sync operation panicked".into())])
+    if r.is_err() {
+        out.push(("C15", "a sync operation panicked".into()));
+    }
+    out
 }
 
 /// predicates for diff on arbitrary well-formed lists (C12 first half, C13 functional half)
@@ -823,8 +838,9 @@ pub fn oracle_list(local: &[LR], peer: &[LR]) -> Viol {
 
 /// multi-replica schedule followed by a fair quiescent phase (C06)
 pub fn oracle_sync(c: &SyncCase) -> Viol {
+    let mut out: Viol = vec![];
     let r = catch_unwind(AssertUnwindSafe(|| {
-        let mut out: Viol = vec![];
+        let out = &mut out;
         let mut reps: Vec<Replica> =
             (0..c.nrep).map(|_| Replica { store: BTreeMap::new(), tree: new_tree::<16>(c.base) }).collect();
         let mut written: BTreeMap<usize, u64> = BTreeMap::new();
@@ -865,7 +881,7 @@ pub fn oracle_sync(c: &SyncCase) -> Viol {
             }
         }
         if !c.merge_max {
-            return out;
+            return;
         }
         // quiescent phase: all-pairs blocks
         // every changing pull raises at least one entry towards the (finite) join, so nrep * keys * distinct
@@ -901,7 +917,9 @@ pub fn oracle_sync(c: &SyncCase) -> Viol {
                 out.push(("C06", format!("replica {i} converged to {:?}, not the join of everything written {:?}", rp.store, written)));
             }
         }
-        out
     }));
-    r.unwrap_or_else(|_| vec![("C15", "a sync operation panicked".into())])
+    if r.is_err() {
+        out.push(("C15", "a sync operation panicked".into()));
+    }
+    out
 }
